@@ -119,8 +119,7 @@ def model_has_hash(name):
 
 def lib_w_point(P, cname):
     if P is None:
-        return EccPoint(0, 0, cname).point_at_infinity() if False else \
-            ECC.construct(curve=cname, d=1).pointQ.point_at_infinity()
+        return ECC.construct(curve=cname, d=1).pointQ.point_at_infinity()
     return EccPoint(P[0], P[1], cname)
 
 
@@ -494,8 +493,6 @@ def check_ecdsa():
             lr, ls = key._sign(Integer(z), Integer(k))
             T.check((int(lr), int(ls)) == sigs.ecdsa_sign(c, d, hb, k), "sign-explicit-k", cname)
             # mutated signatures: accept/reject agreement
-            ver = DSS.new(key.public_key(), "fips-186-3", encoding="binary") \
-                if hname not in ("sha1",) else DSS.new(key.public_key(), "deterministic-rfc6979")
             ver = DSS.new(key.public_key(), "deterministic-rfc6979")
             for (r2, s2) in ((r, c.n - s), (r, (s + 1) % c.n), ((r + 1) % c.n, s), (0, s), (r, 0),
                              (r, c.n), (c.n, s), (r + c.n, s), (r, s + c.n), (s, r)):
@@ -700,6 +697,20 @@ def check_eddsa():
                 want = mverify(pub, msg, sig, ctx, ph)["valid_cofactored"]
                 T.check(lib_ok(sig) == want, "eddsa-verify-mutated", "%s %s" % (cname, why))
             T.check(lib_ok(lib_sig, msg + b"x") is False, "eddsa-wrong-msg", cname)
+        # P.copy() / P * k on points reached by arithmetic (Ed25519 order-2/4 points)
+        for t in ec.ed_small_order_points(c):
+            if ec.ed_mul(c, c.h // 2, t) == (0, 1):
+                continue                                   # need a point of full order h
+            Lt = EccPoint(t[0], t[1], cname)
+            for m in range(1, c.h):
+                want = ec.ed_mul(c, 3 * m, t)
+                try:
+                    got = from_lib_ed((Lt * m) * 3)
+                    T.check(got == want, "torsion-mul", "%s m=%d" % (cname, m))
+                except ValueError as exc:
+                    T.check(False, "ed25519-torsion-offcurve",
+                            "%s: (T8 * %d) * 3 -> ValueError(%s)" % (cname, m, exc))
+            break
         # mixed-order signature: valid under the cofactored equation only
         seed = rng.randbytes(n)
         a, prefix = (ec.ed25519_expand_seed if cname == "Ed25519" else ec.ed448_expand_seed)(seed)
@@ -732,7 +743,6 @@ def check_eddsa():
         accepted = not raises(lambda: ver.verify(b"m", sigL))
         T.check(not accepted, "eddsa-S-eq-L",
                 "%s: pub=%s msg=b'm' sig=%s (S == L) accepted by eddsa verify" % (cname, Aenc.hex(), sigL.hex()))
-        # S == L on an honest signature with S' = S + L never fits... use S=L-free variant:
         # non-canonical R: y = 1 with sign bit set (x = 0)
         Rbad = (1 | 1 << (8 * n - 1)).to_bytes(n, "little")
         sigR = Rbad + bytes(n)
@@ -773,7 +783,8 @@ def check_rsa():
                 T.check(int(getattr(lk, f)) == want, "lib-key-" + f, "")
 
     T.section("RSASSA-PKCS1-v1_5")
-    hs = ["sha1", "sha224", "sha256", "sha384", "sha512", "sha3_256", "sha3_384", "md5", "ripemd160"]
+    hs = ["sha1", "sha224", "sha256", "sha384", "sha512", "sha3_224", "sha3_256", "sha3_384",
+          "sha3_512", "md5", "ripemd160", "md2", "md4"]
     if model_has_hash("sha512_256"):
         hs += ["sha512_224", "sha512_256"]
     for bits, (k, lk) in keys.items():
@@ -1017,7 +1028,6 @@ def check_primes():
     def lib_prime(n):
         return Primality.test_probable_prime(n) == Primality.PROBABLY_PRIME
 
-    cnt = 0
     for n in list(range(2, 3000)) + primes.SMALL_STRONG_PSEUDOPRIMES + primes.strong_lucas_pseudoprimes():
         T.check(lib_prime(n) == primes.is_prime_bpsw(n), "small", str(n))
     for bits in (64, 128, 256, 512):
